@@ -492,6 +492,7 @@ pub fn run_case(
     ignored: &mut u64,
 ) -> Result<CaseOutcome, Found> {
     let mut w = Walker::new(b.horizon, b.max_depth);
+    w.input_len = bytes.len() as u64;
     drivers::take_overrun();
     drivers::take_driver_panic();
     let r = vcore::guard(|| exec(seed, bytes, &seed.ctx, cfg, &mut w));
